@@ -52,9 +52,24 @@ pub fn run(report: &Report, thorough: bool) -> Evidence {
         // suggestions off: all 64 settings of {vowel, chandra, kar, reph, karorder, smart} at max_len;
         // suggestions on (+ English, so the raw key buffer is observable; every key compiles a
         // regex, ~150 us): the 16 settings of {vowel, chandra, kar, karorder} at max_len - 1
-        let mut jobs: Vec<(u32, usize)> = (0..64u32).map(|b| (b, max_len)).collect();
+        // thorough: the deeper bound (L = 4) for the 16 settings of {vowel, chandra, kar, karorder} with reph
+        // and smart quotes on; L = 3 for all 64 (a fourth level over 64 settings with all continuations is
+        // ~30 G events)
+        let mut jobs: Vec<(u32, usize)> = (0..64u32).map(|b| (b, 3)).collect();
+        if thorough {
+            for b in 0..16u32 {
+                let bits = (b & 7) | 8 | ((b >> 3) << 4) | 32;
+                jobs.push((bits | 1 << 9, 4));
+            }
+        }
+        // suggestions on: every key compiles a regex (~150 us), so L = 2 for the 16 settings and, thorough
+        // only, L = 3 for old vowel-sign order off / on with the other helpers on
         for b in 0..16u32 {
-            jobs.push((1 << 8 | b, max_len - 1));
+            jobs.push((1 << 8 | b, 2));
+        }
+        if thorough {
+            jobs.push((1 << 8 | 0b0111, 3));
+            jobs.push((1 << 8 | 0b1111, 3));
         }
         par_for(
             jobs.len(),
@@ -81,7 +96,7 @@ pub fn run(report: &Report, thorough: bool) -> Evidence {
                     o.smart = bits & 32 != 0;
                 }
                 // continuation keys compared with a never-used context after every word ending
-                let cont_keys: Vec<usize> = if o.fsugg { vec![0, 3] } else { (0..nkeys).collect() };
+                let cont_keys: Vec<usize> = if o.fsugg { vec![0, 3] } else if bits & (1 << 9) != 0 { vec![0, 3, 4, 7, 12] } else { (0..nkeys).collect() };
                 let mut ctx = Ctx::new(&o).expect("ctx");
                 ctx.with_pre = false;
                 // renderings of every single key and key pair in a context that has never been used
